@@ -179,6 +179,12 @@ func (t *Table) addGlobalIndex(gsiInput *types.GlobalSecondaryIndex) error {
 		return err
 	}
 
+	// an index created on a table that already holds items starts with those items;
+	// items whose attributes do not fit the index key schema are left out, as in DynamoDB
+	for key, item := range t.Data {
+		_ = i.putData(key, item)
+	}
+
 	t.Indexes[*gsiInput.IndexName] = i
 
 	return nil
